@@ -127,6 +127,7 @@ type aCase struct {
 	canonical bool
 	a         refflv.AudioBody // fields (payload filled per case)
 	plen      int
+	prefix    []byte // if set, the payload starts with these bytes
 }
 
 func audioScope(a *refflv.AudioBody) string {
@@ -167,6 +168,20 @@ func enumAudio() []aCase {
 						a.Rate = byte(rate)
 						cs = appendLens(cs, false, a)
 					}
+				}
+			}
+		}
+	}
+	// AAC bodies whose payload is an AudioSpecificConfig: the tag's own rate/size/channel bits are what the statement
+	// fixes, whatever the configuration inside says (HE-AAC signals 44 kHz stereo in the tag for any stream) — all
+	// 32 x 16 x 16 (object type, sampling index, channel configuration) prefixes, as sequence header and as raw frame
+	for asc := 0; asc < 8192; asc++ {
+		pre := []byte{byte(asc >> 5), byte(asc << 3)}
+		for tr := 0; tr < 2; tr++ {
+			for ch := 0; ch < 2; ch++ {
+				for _, canonical := range []bool{false, true} {
+					a := refflv.AudioBody{Format: refflv.AudioAAC, Rate: byte(asc % 4), Size: byte(asc >> 2 & 1), Channels: byte(ch), Trait: byte(tr)}
+					cs = append(cs, aCase{canonical: canonical, a: a, plen: 2 + asc%3, prefix: pre})
 				}
 			}
 		}
@@ -294,6 +309,7 @@ func observeAudio(m *mon.M, sn *seen, g *flv.AudioFrame) {
 func checkAudio(m *mon.M, vc *detviol.Collector, sn *seen, ap flv.AudioPackager, kp *keeper, c *aCase, r *vrand.Rand, idx int) {
 	a := c.a
 	a.Payload = payload(r, c.plen)
+	copy(a.Payload, c.prefix)
 	scope := audioScope(&a)
 	ref := a.Bytes()
 	if c.canonical {
